@@ -168,6 +168,22 @@ int main(int argc, char **argv)
 		}
 		return r.ok ? vf::Result::pass() : vf::Result::fail(r.sig, r.what);
 	};
+	if (args.kv.count("dump-corpus")) { // write rapidcheck-generated scripts in the byte form of the fuzz target (seed corpus)
+		std::string dir = args.kv["dump-corpus"];
+		int n = 0;
+		rc::check("dump", [&]() {
+			Script sc = *genScript("C04");
+			if (sc.steps.empty() || sc.steps.size() > 6) return;
+			wire::Bytes b = to_bytes(sc);
+			Script back = from_bytes(b.data(), b.size());
+			if (to_text(back) != to_text(sc)) { /* fields the byte form cannot carry (bulk, v0bulk): keep anyway */ }
+			char name[64];
+			snprintf(name, sizeof name, "/seed-%03d", n++);
+			std::ofstream f(dir + name, std::ios::binary);
+			f.write((const char *)b.data(), b.size());
+		});
+		return 0;
+	}
 	if (!args.replay.empty()) return vf::replay_main(args, run_text);
 	vf::Stats st(args);
 	stp = &st;
